@@ -50,24 +50,28 @@ fn is_symbol_char<'a>(i: OffsetStrIter<'a>) -> Result<OffsetStrIter<'a>, u8> {
 fn escapequoted<'a>(input: OffsetStrIter<'a>) -> Result<OffsetStrIter<'a>, String> {
     // loop until we find a " that is not preceded by \.
     // Collapse all \<char> to just char  for escaping exept for \n \r \t and \@.
-    let mut frag = String::new();
+    //
+    // The input is walked byte by byte, so the fragment is collected as bytes
+    // too. Only ASCII bytes are ever dropped or replaced, which means every
+    // multi-byte UTF-8 sequence of the source arrives intact.
+    let mut frag: Vec<u8> = Vec::new();
     let mut escape = false;
     let mut _input = input.clone();
     while let Some(&c) = _input.next() {
         if escape {
             match c as char {
                 'n' => {
-                    frag.push('\n');
+                    frag.push(b'\n');
                     escape = false;
                     continue;
                 }
                 'r' => {
-                    frag.push('\r');
+                    frag.push(b'\r');
                     escape = false;
                     continue;
                 }
                 't' => {
-                    frag.push('\t');
+                    frag.push(b'\t');
                     escape = false;
                     continue;
                 }
@@ -82,10 +86,10 @@ fn escapequoted<'a>(input: OffsetStrIter<'a>) -> Result<OffsetStrIter<'a>, Strin
         } else if c == b'"' && !escape {
             // Bail if this is an unescaped "
             // we exit here.
-            return Result::Complete(_input, frag);
+            return Result::Complete(_input, String::from_utf8_lossy(&frag).into_owned());
         } else {
-            // we accumulate this character.
-            frag.push(c as char);
+            // we accumulate this byte.
+            frag.push(c);
             escape = false; // reset our escaping sentinel
         }
     }
